@@ -116,3 +116,26 @@ Proof. exact deferred_copy_refuted. Qed.
 
 Theorem C10_deferred_copy_not_copy_first : copy_first (writer_prog_deferred_copy true []) = false.
 Proof. reflexivity. Qed.
+
+(* Second round, seeded change: GatheredArray.__init__ shares the list variable of its source,
+   so the writer's copy holds the caller's List object and nc_set_variable renames it. *)
+Theorem C10_shared_list_refuted :
+  exists h', write_all_d list_shared (writer_prog true [ISet 0 0 6]) ex_heap2 1%nat [ex_obj2] = (h', 1%nat, false)
+             /\ hget h' 0%nat <> hget ex_heap2 0%nat.
+Proof. exact shared_list_refuted. Qed.
+
+(* Second round, seeded change: the overwrite=False existence test made before the name is
+   expanded ($V/e.nc read as a literal path that does not exist): the existing file is replaced. *)
+Theorem C10_unexpanded_test_refuted :
+  exists fs' r K,
+    is_regular (nodes ex_fs) K = true /\
+    write_given_test_unexpanded (fun _ => [99; 8]) ex_env guard ex_fs (ex_gq [RVar 1; RLit 8])
+                                (mkW MW false FNone) 1000 = (fs', r) /\
+    content fs' K <> content ex_fs K.
+Proof.
+  exists (fst (write_given_test_unexpanded (fun _ => [99; 8]) ex_env guard ex_fs (ex_gq [RVar 1; RLit 8])
+              (mkW MW false FNone) 1000)).
+  eexists. exists [1; 2; 8]. split; [reflexivity|]. split.
+  - vm_compute. reflexivity.
+  - vm_compute. discriminate.
+Qed.
